@@ -235,6 +235,7 @@ pub fn execute(head: &str, src: Source<'_>, faults: &Faults, layout_seed: u64, o
     st(St::p_cycle_survivors, c[8] as u64);
     st_max(St::p_pages_used_max, alloc::pages_used() as u64);
     st(St::p_blocks_reused, alloc::reused_blocks() as u64);
+    st(St::p_quarantine_given_back_runs, alloc::quarantine_recycled() as u64);
     st_max(St::p_calls_max, issued.len() as u64);
     let (unreach, p_broken) = exec::m(|m| {
         let ml = m.must_live();
@@ -1073,6 +1074,7 @@ fn scale_cmd(a: &Args) -> i32 {
     let seed = a.num("--seed", 1);
     scale::DEAD_ACT.store(match a.get("--dead-act") { Some("clone") => 1, Some("drop") => 2, Some("clonefrom") => 3, _ => 0 }, Relaxed);
     scale::DEAD_AT.store(a.num("--dead-at", 0) as usize, Relaxed);
+    scale::GIVE.store(match a.get("--give") { Some("unwrap") => 1, Some("steal") => 2, _ => 0 }, Relaxed);
     shared::init();
     alloc::reset(1, false);
     let shape2 = shape.clone();
